@@ -43,3 +43,50 @@ def run(ctx):
     for hook in ["post_create", "post_modify", "post_batch_modify", "post_delete", "post_repl_refresh",
                  "post_repl_incremental_conflict", "post_repl_incremental"]:
         hook_nontrivial(ctx, "K2-hook-body", "refint", PLUGIN, hook)
+    reference_removal_visits_everything(ctx)
+
+
+# ---------------------------------------------------------------------------------------------------------------------
+# The plugin removes a deleted uuid from reference attributes through ValueSetT::remove (via Entry::remove_avas). A value
+# set that stores references in several inner containers must visit all of them: a removal placed inside the closure of a
+# short-circuiting adapter (`any`, `find`, `all`, `position`, ...) stops at the first hit and leaves the other references
+# dangling. (added after seeded change C16: ValueSetOauthClaimMap::remove rewritten with `values_mut().any(|m| m.values.remove(u).is_some())`)
+
+SHORT_CIRCUIT = ("any", "all", "find", "find_map", "position", "rposition", "take_while", "skip_while", "map_while")
+REMOVERS = ("remove", "retain", "clear", "pop", "swap_remove", "drain", "truncate", "remove_entry", "take", "pop_first", "pop_last", "split_off")
+
+
+def reference_removal_visits_everything(ctx):
+    from .lib.hir import walk, unwrap
+    R = "K4-reference-removal-visits-all"
+    F = ctx.facts
+    LIBC = "kanidmd_lib"
+    names = F.find_fns(LIBC, r"^kanidmd_lib::<valueset::.* as valueset::ValueSetT>::remove$")
+    names += F.find_fns(LIBC, r"^kanidmd_lib::entry::Entry::<.*>::remove_avas?$")
+    names += F.find_fns(LIBC, r"^kanidmd_lib::plugins::refint::ReferentialIntegrity::remove_references$")
+    ctx.floor(R, "reference-removal functions (ValueSetT::remove impls, Entry::remove_ava(s), refint)", len(names), 45)
+    n_sc = 0
+    for name in sorted(set(names)):
+        f = ctx.fn(LIBC, name)
+        for c in walk(f["body"]):
+            if c.get("e") == "mcall" and c.get("name") in SHORT_CIRCUIT:
+                for a in c.get("args", []):
+                    a = unwrap(a)
+                    if a.get("e") != "closure":
+                        continue
+                    n_sc += 1
+                    muts = [m for m in walk(a["body"]) if m.get("e") == "mcall" and m.get("name") in REMOVERS and not m.get("exp")]
+                    ty = name.split(" as ")[0].split("::")[-1]
+                    where = f" (`.{muts[0]['name']}(..)` at line {muts[0].get('line')})" if muts else ""
+                    ctx.check(not muts, R, name, f"no-removal-under:{c['name']}", f"`{c['name']}` closure has no removal side effect",
+                              f"{ty}::remove removes values inside the closure of the short-circuiting adapter `{c['name']}`{where}: iteration stops at the "
+                              "first container that held the value, so the same reference stays in the remaining containers — after its target is "
+                              "deleted that is a dangling reference which later modifies never repair",
+                              file=f["file"], line=c.get("line"))
+    # positive control for the scanner itself: the crate does contain short-circuit closures (so an empty scan means broken facts)
+    total = 0
+    for nm in F.fns_mentioning(LIBC, '"name":"any"'):
+        total += 1
+        if total >= 20:
+            break
+    ctx.floor(R, "bodies with a short-circuit adapter in kanidmd_lib (scanner control)", total, 20)
